@@ -136,8 +136,10 @@ def part_c(rec, oi, tier, seed, only=None):
                 da = xr.DataArray(a.copy(), dims=dims)
                 kw = {k: (dict(v) if isinstance(v, dict) else v) for k, v in rs.items() if v is not None}
                 rec.case(("c", oi, st_i, tos, ri), True, sample=dict(case, order=list(order)), calls=len(order))
+                # odd rule sets: the `to` mapping lists the axes in the opposite order of `axis`
+                to_map = dict(zip(order, tos)) if ri % 2 == 0 else dict(reversed(list(zip(order, tos))))
                 try:
-                    r = g.cumsum(da, list(order), to=dict(zip(order, tos)), **kw)
+                    r = g.cumsum(da, list(order), to=to_map, **kw)
                 except Exception as e:
                     rec.violation("multi-axis", "raise:" + exc_sig(e), case, "array", f"{type(e).__name__}: {e}"[:200])
                     continue
